@@ -80,3 +80,34 @@ fn c04_6c_get_at_zero_is_slot_one() {
     assert!(out.left == r.frames[1].frame.left && out.right == r.frames[1].frame.right, "C04.6c: fraction 0 reproduces the heard frame exactly");
     kani::cover!(r.frames[1].frame.left != 0.0);
 }
+
+pub(crate) static mut IF_N: usize = 0;
+pub(crate) static mut IF_ARGS: [Frame; 4] = [Frame::ZERO; 4];
+pub(crate) static mut IF_X: f32 = 0.0;
+pub(crate) static mut IF_RET: Frame = Frame::ZERO;
+
+/// Recording stand-in for `frame::interpolate_frame` (its own contract: C04.7a-c).
+pub(crate) fn interpolate_frame_rec(previous: Frame, current: Frame, next_1: Frame, next_2: Frame, fraction: f32) -> Frame {
+    let r = Frame::new(kani::any(), kani::any());
+    unsafe { IF_N += 1; IF_ARGS = [previous, current, next_1, next_2]; IF_X = fraction; IF_RET = r; }
+    r
+}
+
+// @ob id=C04.6d strength=complete tier=quick fn=sound/static_sound/sound/resampler.rs::Resampler::get
+// @req any resampler state, any fraction; interpolate_frame replaced by its recording contract stub
+// @ens get(x) is interpolate_frame(slot 0, slot 1, slot 2, slot 3, x): the four history frames in age order (previous, current, next, next-but-one) with the fraction passed through unchanged, and the result returned unchanged
+#[kani::proof]
+#[kani::unwind(6)]
+#[kani::stub(crate::frame::interpolate_frame, interpolate_frame_rec)]
+fn c04_6d_get_feeds_the_window_in_order() {
+    let r = any_resampler();
+    let x: f32 = kani::any();
+    let out = r.get(x);
+    unsafe {
+        assert!(IF_N == 1, "C04.6d: one interpolation per output frame");
+        let mut i = 0;
+        while i < 4 { assert!(same(IF_ARGS[i], r.frames[i].frame), "C04.6d: the window is handed over oldest first"); i += 1; }
+        assert!(IF_X.to_bits() == x.to_bits() && same(out, IF_RET), "C04.6d: fraction and result pass through unchanged");
+    }
+    kani::cover!(true);
+}
